@@ -606,4 +606,329 @@ theorem run_split_none {α : Type} (c' : List Char) (fut' : List (List Char)) (Q
     exact ih ({ s with exprs := s.exprs ++ [e'] } : PState) (by simpa [Inv] using hi) hfin hfut
       (by simpa [view, PState.base, runes_of_pending, PState.willFinish] using h)
 
+/-! ## 5. One stage of the protocol, with every shifted version of its program -/
+
+/-- the call answers an error: the run of the delivery model from here is that error -/
+theorem stage_err (F : Nat) (t : PState) (co : Option Co) (c : List Char) (fut' : List (List Char))
+    (hco : co ≠ some .finalYield) (hTL : TL F (progOf F co)) (hi : Inv t) (hfin : t.lex.finished = false)
+    (hfut : t.fut = c :: fut') (hs : suspendA (progOf F co) (view t.base) = none) :
+    ∃ s1 : PState, (PSt.parseTokens F ⟨t.lex, t.exprs, co⟩).1 = .err ∧
+      (PSt.parseTokens F ⟨t.lex, t.exprs, co⟩).2.1 = s1.exprs ∧
+      run (progOf F co).erase t = (.stop .err, t.restore s1) := by
+  obtain ⟨_, _, sl3⟩ := SL_of_TL F _ hTL (view t.base)
+  have hpt := parseTokens_eq F ⟨t.lex, t.exprs, co⟩ hco
+  have hps : (⟨t.lex, t.exprs, co⟩ : PSt).pstate = t.base := rfl
+  rw [hps] at hpt
+  simp only at hpt
+  have hsplit := run_split_none c fut' _ t hi hfin hfut hs
+  have herr : (run (progOf F co).erase t.base).1 = .stop .err := by
+    rw [(run_view _ t.base hi).1]; exact sl3 hs
+  cases hrun : run (progOf F co).erase t.base with
+  | mk fin s1 =>
+    rw [hrun] at hpt hsplit herr
+    simp only at herr
+    subst herr
+    refine ⟨s1, ?_, ?_, hsplit⟩
+    · rw [hpt]
+    · rw [hpt]
+
+/-- the call answers `more` or `done`: the run of the delivery model from here goes on after the
+delivery with the program the protocol holds next — and so does the run of every shifted version of
+the program, with the shifted version of that next program (`topLoop` at exactly the shifted fuel
+when the call answered `done`) -/
+theorem stage_ok (F : Nat) (t : PState) (co : Option Co) (c : List Char) (fut' : List (List Char))
+    (hco : co ≠ some .finalYield) (hTL : TL F (progOf F co)) (hi : Inv t) (hfin : t.lex.finished = false)
+    (hfut : t.fut = c :: fut') (e : Bool) (κ : SProg Unit) (v' : View)
+    (hs : suspendA (progOf F co) (view t.base) = some (e, κ, v')) :
+    ∃ (co' : Option Co) (s1 : PState),
+      PSt.parseTokens F ⟨t.lex, t.exprs, co⟩ = ((if e then .done else .more), s1.exprs, ⟨s1.lex, s1.exprs, co'⟩) ∧
+      co' ≠ some .finalYield ∧ TL F (progOf F co') ∧ s1.lex.pending = [] ∧
+      run (progOf F co).erase t = run κ.erase ((t.restore s1).deliver c fut' (if e then .done else .more)) ∧
+      (e = false → progOf F co' = κ) ∧
+      (e = true → co' = none ∧ ∃ f, f + 1 ≤ F ∧ κ = S.topLoop (f + 1)) ∧
+      ∀ (d : Nat) (Q' : SProg Unit), Shift d (progOf F co) Q' →
+        ∃ κ', Shift d κ κ' ∧ (e = true → ∃ f, κ = S.topLoop (f + 1) ∧ κ' = S.topLoop (f + 1 + d)) ∧
+          run Q'.erase t = run κ'.erase ((t.restore s1).deliver c fut' (if e then .done else .more)) := by
+  have hvfin : (view t.base).fin = false := by simp [view, PState.base, PState.willFinish, hfin]
+  obtain ⟨sl1, sl2, sl3⟩ := SL_of_TL F _ hTL (view t.base)
+  have hpt := parseTokens_eq F ⟨t.lex, t.exprs, co⟩ hco
+  have hps : (⟨t.lex, t.exprs, co⟩ : PSt).pstate = t.base := rfl
+  rw [hps] at hpt
+  simp only at hpt
+  obtain ⟨s1, g1, g2, g3, g4, g5, g6, g7⟩ := run_split c fut' _ t hi hfin hfut e κ v' hs
+  obtain ⟨q1, _⟩ := resume_is_rest_of_run _ _ hvfin e κ v' hs
+  have hpend : s1.lex.pending = [] := by
+    have : (view s1).runes = [] := by rw [g4]; exact q1
+    exact (List.append_eq_nil_iff.mp this).1
+  -- the run of the call itself
+  have hbase : run (progOf F co).erase t.base = ((if e then Fin.ret () else Fin.stop .more), s1) := by
+    cases e with
+    | false => exact g5 rfl
+    | true =>
+      obtain ⟨⟨f, hf, rfl⟩, _⟩ := sl1 κ v' hs
+      have hrun := g6 _ rfl (topLoop_succ_eq f)
+      simpa [SProg.erase, run] using hrun
+  -- every shifted version rests at the same state
+  have hshift : ∀ (d : Nat) (Q' : SProg Unit), Shift d (progOf F co) Q' →
+      ∃ κ', Shift d κ κ' ∧ (e = true → ∃ f, κ = S.topLoop (f + 1) ∧ κ' = S.topLoop (f + 1 + d)) ∧
+        run Q'.erase t = run κ'.erase ((t.restore s1).deliver c fut' (if e then .done else .more)) := by
+    intro d Q' hsh
+    obtain ⟨κ', k1, k2, k3⟩ := shiftOK d _ _ hsh (view t.base) e κ v' hs
+    obtain ⟨s1', _, _, _, _, j5, j6, j7⟩ := run_split c fut' Q' t hi hfin hfut e κ' v' k1
+    have hle := run_le hsh.erase_le t.base (by rw [hbase]; cases e <;> simp)
+    have hs1 : s1' = s1 := by
+      cases e with
+      | false =>
+        have := j5 rfl
+        rw [hle, hbase] at this
+        simp only [Bool.false_eq_true, ↓reduceIte, Prod.mk.injEq, true_and] at this
+        exact this.symm
+      | true =>
+        obtain ⟨f, _, hκ'⟩ := k3 rfl
+        have hfd : f + 1 + d = (f + d) + 1 := by omega
+        rw [hfd] at hκ'
+        have hrun := j6 _ rfl (hκ'.trans (topLoop_succ_eq (f + d)))
+        simp only [SProg.erase, run] at hrun
+        rw [hle, hbase] at hrun
+        simp only [↓reduceIte, Prod.mk.injEq, true_and] at hrun
+        exact hrun.symm
+    rw [hs1] at j7
+    exact ⟨κ', k2, k3, j7⟩
+  cases e with
+  | false =>
+    have hres := (residual_of_suspendA _ t.base hi κ v' hs).1
+    rw [hbase, hres] at hpt
+    refine ⟨some (.waiting κ), s1, by simpa using hpt, by simp, sl2 κ v' hs, hpend, by simpa using g7, fun _ => rfl,
+      fun h => by simp at h, hshift⟩
+  | true =>
+    obtain ⟨⟨f, hf, hκ⟩, _⟩ := sl1 κ v' hs
+    rw [hbase] at hpt
+    refine ⟨none, s1, by simpa using hpt, by simp, .top F (Nat.le_refl _), hpend, by simpa using g7,
+      fun h => by simp at h, fun _ => ⟨rfl, f, hf, hκ⟩, hshift⟩
+
+/-! ## 6. The induction over the pieces -/
+
+def commaTok : Token := ⟨.comma, [',']⟩
+
+theorem S_parseExprTok_comma (f : Nat) : S.parseExprTok (f + 1) commaTok = .pure .comma := by
+  rw [S.parseExprTok]
+  simp [commaTok, atomOfTok, pure]
+
+/-- the loop at different fuels is a different program -/
+theorem S_topLoop_inj : ∀ (f g : Nat), S.topLoop f = S.topLoop g → f = g := by
+  intro f
+  induction f with
+  | zero =>
+    intro g h
+    cases g with
+    | zero => rfl
+    | succ g => rw [topLoop_succ_eq] at h; rw [S.topLoop] at h; simp [S.fail] at h
+  | succ f ih =>
+    intro g h
+    cases g with
+    | zero => rw [topLoop_succ_eq] at h; rw [S.topLoop] at h; simp [S.fail] at h
+    | succ g =>
+      rw [topLoop_succ_eq, topLoop_succ_eq] at h
+      simp only [SProg.topGet.injEq] at h
+      have h2 := congrFun h (some commaTok)
+      simp only at h2
+      cases f with
+      | zero =>
+        cases g with
+        | zero => rfl
+        | succ g =>
+          rw [S_parseExprTok_comma] at h2
+          rw [S.parseExprTok] at h2
+          simp [S.fail, SProg.bind, afterExpr] at h2
+      | succ f =>
+        cases g with
+        | zero =>
+          rw [S_parseExprTok_comma] at h2
+          rw [S.parseExprTok] at h2
+          simp [S.fail, SProg.bind, afterExpr] at h2
+        | succ g =>
+          rw [S_parseExprTok_comma, S_parseExprTok_comma] at h2
+          simp only [SProg.bind, afterExpr, SProg.pushExpr.injEq, true_and] at h2
+          rw [ih (g + 1) h2]
+
+/-- "the protocol at this stage is a stage of the delivery model started with fuel `G`", uniformly
+in a further shift `d` (`W G` = the run of the delivery model started with fuel `G`) -/
+def StageInv (W : Nat → Fin Unit × PState) (Fc : Nat) (t : PState) (Q : SProg Unit) : Prop :=
+  ∃ G, Fc ≤ G ∧ W G = run Q.erase t ∧ ∀ d, ∃ Q', Shift d Q Q' ∧ W (G + d) = run Q'.erase t
+
+theorem final_call (F : Nat) (t2 : PState) (co' : Option Co) (hco : co' ≠ some .finalYield) (hi : Inv t2)
+    (hfut : t2.fut = []) :
+    (PSt.parseTokens F ⟨t2.lex, t2.exprs, co'⟩).1 = statusOf (run (progOf F co').erase t2).1 ∧
+    (PSt.parseTokens F ⟨t2.lex, t2.exprs, co'⟩).2.1 = (run (progOf F co').erase t2).2.exprs := by
+  have hpt := parseTokens_eq F ⟨t2.lex, t2.exprs, co'⟩ hco
+  have hps : (⟨t2.lex, t2.exprs, co'⟩ : PSt).pstate = t2.base := rfl
+  rw [hps] at hpt
+  simp only at hpt
+  have hv : view t2.base = view t2 := by simp [view, PState.base, PState.runes, PState.willFinish, hfut]
+  obtain ⟨b1, b2⟩ := run_view (progOf F co').erase t2.base hi
+  obtain ⟨c1, c2⟩ := run_view (progOf F co').erase t2 hi
+  rw [hv] at b1 b2
+  have h1 : (run (progOf F co').erase t2.base).1 = (run (progOf F co').erase t2).1 := b1.trans c1.symm
+  have h2 : (run (progOf F co').erase t2.base).2.exprs = (run (progOf F co').erase t2).2.exprs :=
+    congrArg View.exprs (b2.trans c2.symm)
+  rw [← h1, ← h2, hpt]
+  cases run (progOf F co').erase t2.base with
+  | mk fin s =>
+    cases fin with
+    | ret a => exact ⟨rfl, rfl⟩
+    | stop st => cases st <;> exact ⟨rfl, rfl⟩
+
+theorem stages (F Fc : Nat) (W : Nat → Fin Unit × PState) :
+    ∀ (rest : List (List Char)) (t : PState) (co : Option Co) (tr : List Status),
+    co ≠ some .finalYield → TL F (progOf F co) → Inv t → t.lex.finished = false → t.eof = true →
+    t.fut = rest ++ [eofPiece] → t.trace = tr.reverse → StageInv W Fc t (progOf F co) →
+    ∃ G, Fc ≤ G ∧ (callThen F ⟨t.lex, t.exprs, co⟩ tr rest).1.status = statusOf (W G).1 ∧
+      (callThen F ⟨t.lex, t.exprs, co⟩ tr rest).1.exprs = (W G).2.exprs ∧
+      (callThen F ⟨t.lex, t.exprs, co⟩ tr rest).1.trace = (W G).2.trace := by
+  -- the common part of both cases: the first call and the invariant after it
+  have common : ∀ (t : PState) (co : Option Co) (tr : List Status) (c : List Char) (fut' : List (List Char)),
+      co ≠ some .finalYield → TL F (progOf F co) → Inv t → t.lex.finished = false →
+      t.fut = c :: fut' → t.trace = tr.reverse → StageInv W Fc t (progOf F co) →
+      (∃ G, Fc ≤ G ∧ (PSt.parseTokens F ⟨t.lex, t.exprs, co⟩).1 = .err ∧ (W G).1 = .stop .err ∧
+          (PSt.parseTokens F ⟨t.lex, t.exprs, co⟩).2.1 = (W G).2.exprs ∧ (W G).2.trace = tr.reverse) ∨
+      (∃ (st : Status) (co' : Option Co) (s1 : PState), st ≠ .err ∧
+          PSt.parseTokens F ⟨t.lex, t.exprs, co⟩ = (st, s1.exprs, ⟨s1.lex, s1.exprs, co'⟩) ∧
+          co' ≠ some .finalYield ∧ TL F (progOf F co') ∧ s1.lex.pending = [] ∧
+          StageInv W Fc ((t.restore s1).deliver c fut' st) (progOf F co')) := by
+    intro t co tr c fut' hco hTL hi hfin hfut htr hinv
+    obtain ⟨G, hG, hW, hWd⟩ := hinv
+    cases hs : suspendA (progOf F co) (view t.base) with
+    | none =>
+      obtain ⟨s1, e1, e2, e3⟩ := stage_err F t co c fut' hco hTL hi hfin hfut hs
+      left
+      refine ⟨G, hG, e1, by rw [hW, e3], by rw [hW, e3, e2]; rfl, by rw [hW, e3]; exact htr⟩
+    | some x =>
+      obtain ⟨e, κ, v'⟩ := x
+      obtain ⟨co', s1, k1, k2, k3, k4, k5, k6, k7, k8⟩ := stage_ok F t co c fut' hco hTL hi hfin hfut e κ v' hs
+      right
+      refine ⟨(if e then .done else .more), co', s1, by cases e <;> simp, k1, k2, k3, k4, ?_⟩
+      cases e with
+      | false =>
+        rw [k6 rfl]
+        refine ⟨G, hG, hW.trans k5, fun d => ?_⟩
+        obtain ⟨Q', sh, w⟩ := hWd d
+        obtain ⟨κ', a1, _, a3⟩ := k8 d Q' sh
+        exact ⟨κ', a1, w.trans a3⟩
+      | true =>
+        obtain ⟨rfl, f, hf, hκ⟩ := k7 rfl
+        have key : ∀ d, W (G + (F - (f + 1)) + d) = run (S.topLoop (F + d)).erase
+            ((t.restore s1).deliver c fut' (if true = true then Status.done else Status.more)) := by
+          intro d
+          obtain ⟨Q', sh, w⟩ := hWd (F - (f + 1) + d)
+          obtain ⟨κ', _, a2, a3⟩ := k8 (F - (f + 1) + d) Q' sh
+          obtain ⟨f', e1, e2⟩ := a2 rfl
+          have hff : f' = f := by
+            have := S_topLoop_inj (f' + 1) (f + 1) (e1.symm.trans hκ)
+            omega
+          subst hff
+          have hidx : f' + 1 + (F - (f' + 1) + d) = F + d := by omega
+          rw [hidx] at e2
+          rw [Nat.add_assoc, w, a3, e2]
+        refine ⟨G + (F - (f + 1)), by omega, ?_, fun d => ⟨S.topLoop (F + d), .top F, key d⟩⟩
+        have := key 0
+        simpa [progOf] using this
+  intro rest
+  induction rest with
+  | nil =>
+    intro t co tr hco hTL hi hfin heof hfut htr hinv
+    rcases common t co tr eofPiece [] hco hTL hi hfin hfut htr hinv with
+      ⟨G, hG, c1, c2, c3, c4⟩ | ⟨st, co', s1, d1, d2, d3, d4, d5, d6⟩
+    · refine ⟨G, hG, ?_⟩
+      have hb : ((PSt.parseTokens F ⟨t.lex, t.exprs, co⟩).1 == Status.err) = true := by rw [c1]; rfl
+      simp only [callThen, hb, ↓reduceIte]
+      rw [c2]
+      exact ⟨c1, c3, c4.symm⟩
+    · obtain ⟨G, hG, hW, _⟩ := d6
+      refine ⟨G, hG, ?_⟩
+      have hb : (st == Status.err) = false := by cases st <;> simp_all
+      obtain ⟨a1, a2, a3, a4⟩ := addNextStream_read s1.lex eofPiece d5
+      have hlex : ((t.restore s1).deliver eofPiece [] st).lex = s1.lex.endInput := by
+        simp [PState.deliver, PState.restore, heof, LexState.endInput, eofPiece]
+      have hi2 : Inv ((t.restore s1).deliver eofPiece [] st) := by
+        rw [Inv, hlex]; exact a3
+      obtain ⟨f1, f2⟩ := final_call F ((t.restore s1).deliver eofPiece [] st) co' d3 hi2 rfl
+      have g := run_ghost (progOf F co').erase ((t.restore s1).deliver eofPiece [] st) rfl
+      rw [hlex] at f1 f2
+      have hex : ((t.restore s1).deliver eofPiece [] st).exprs = s1.exprs := rfl
+      rw [hex] at f1 f2
+      simp only [callThen, d2, hb, Bool.false_eq_true, ↓reduceIte, PSt.deliverRest, PSt.endInput]
+      rw [hW]
+      refine ⟨f1, f2, ?_⟩
+      rw [g.2.2.1]
+      simp [PState.deliver, PState.restore, htr]
+  | cons c rest ih =>
+    intro t co tr hco hTL hi hfin heof hfut htr hinv
+    rcases common t co tr c (rest ++ [eofPiece]) hco hTL hi hfin hfut htr hinv with
+      ⟨G, hG, c1, c2, c3, c4⟩ | ⟨st, co', s1, d1, d2, d3, d4, d5, d6⟩
+    · refine ⟨G, hG, ?_⟩
+      have hb : ((PSt.parseTokens F ⟨t.lex, t.exprs, co⟩).1 == Status.err) = true := by rw [c1]; rfl
+      simp only [callThen, hb, ↓reduceIte]
+      rw [c2]
+      exact ⟨c1, c3, c4.symm⟩
+    · have hb : (st == Status.err) = false := by cases st <;> simp_all
+      obtain ⟨a1, a2, a3, a4⟩ := addNextStream_read s1.lex c d5
+      have hlex : ((t.restore s1).deliver c (rest ++ [eofPiece]) st).lex = s1.lex.addNextStream c := by
+        simp only [PState.deliver, PState.restore, heof]
+        have : (rest ++ [eofPiece]).isEmpty = false := by cases rest <;> rfl
+        simp only [this, Bool.and_false]
+        exact finished_false_eq _ a4
+      have htr2 : ((t.restore s1).deliver c (rest ++ [eofPiece]) st).trace = (st :: tr).reverse := by
+        simp [PState.deliver, PState.restore, htr]
+      obtain ⟨G, hG, x1, x2, x3⟩ := ih ((t.restore s1).deliver c (rest ++ [eofPiece]) st) co' (st :: tr) d3 d4
+        (by rw [Inv, hlex]; exact a3) (by rw [hlex]; exact a4) heof rfl htr2 d6
+      refine ⟨G, hG, ?_⟩
+      rw [hlex] at x1 x2 x3
+      have hex : ((t.restore s1).deliver c (rest ++ [eofPiece]) st).exprs = s1.exprs := rfl
+      rw [hex] at x1 x2 x3
+      have hni : (⟨s1.lex, s1.exprs, co'⟩ : PSt).newInput c = ⟨s1.lex.addNextStream c, s1.exprs, co'⟩ := rfl
+      rw [callThen, d2]
+      simp only [hb, Bool.false_eq_true, ↓reduceIte]
+      rw [deliverRest_cons_eq, hni]
+      exact ⟨x1, x2, x3⟩
+
+theorem parseChunks_run_exprs (cs : List (List Char)) :
+    (parseChunks cs).exprs = (run (topLoop (fuelFor cs)) (initState LexState.init cs)).2.exprs := by
+  unfold parseChunks parseChunksFrom
+  cases run (topLoop (fuelFor cs)) (initState LexState.init cs) with
+  | mk fin s => cases fin <;> rfl
+
+theorem stepwise_of_fuel_cons (c : List Char) (rest : List (List Char)) (F : Nat) (hF : fuelFor (c :: rest) ≤ F)
+    (hfe : ∀ G, fuelFor (c :: rest) ≤ G → run (topLoop G) (initState LexState.init (c :: rest)) =
+      run (topLoop (fuelFor (c :: rest))) (initState LexState.init (c :: rest))) (p : PSt) :
+    (p.parseBy F .resetAdd (c :: rest)).1.status = (parseChunks (c :: rest)).status ∧
+    (p.parseBy F .resetAdd (c :: rest)).1.exprs = (parseChunks (c :: rest)).exprs ∧
+    (p.parseBy F .resetAdd (c :: rest)).1.trace = (parseChunks (c :: rest)).trace := by
+  obtain ⟨hst, htr⟩ := parseChunks_run (c :: rest)
+  have hex := parseChunks_run_exprs (c :: rest)
+  obtain ⟨a1, a2, a3, a4, a5, a6⟩ := resetAddNewInput_lex p c
+  have hl : (initState LexState.init (c :: rest)).lex = (p.resetAddNewInput c).lex := rfl
+  have hp : p.resetAddNewInput c = ⟨(initState LexState.init (c :: rest)).lex, (initState LexState.init (c :: rest)).exprs, none⟩ := rfl
+  have hinv : StageInv (fun G => run (topLoop G) (initState LexState.init (c :: rest))) (fuelFor (c :: rest))
+      (initState LexState.init (c :: rest)) (progOf F none) := by
+    refine ⟨F, hF, by simp [progOf, erase_topLoop], fun d => ⟨S.topLoop (F + d), .top F, by simp [erase_topLoop]⟩⟩
+  obtain ⟨G, hG, x1, x2, x3⟩ := stages F (fuelFor (c :: rest)) _ rest (initState LexState.init (c :: rest)) none [] (by simp)
+    (.top F (Nat.le_refl _)) (by rw [Inv, hl]; exact a3) (by rw [hl]; exact a4) rfl rfl rfl hinv
+  simp only [hfe G hG] at x1 x2 x3
+  rw [parseBy_cons_callThen, hp, x1, x2, x3, hst, hex, htr]
+  exact ⟨rfl, rfl, rfl⟩
+
+/-- **If the fuel of the delivery model is enough for a text** (its run is the same run with any
+larger fuel), **the call-by-call protocol computes `parseChunks` of that text** — status,
+expressions, trace — whatever the outcome, errors included, from every parser state, with every
+per-iterator fuel `F ≥ fuelFor cs`. -/
+theorem stepwise_of_fuel (cs : List (List Char)) (F : Nat) (hF : fuelFor cs ≤ F)
+    (hfe : ∀ G, fuelFor cs ≤ G → run (topLoop G) (initState LexState.init cs) =
+      run (topLoop (fuelFor cs)) (initState LexState.init cs)) (p : PSt) :
+    (p.parseBy F .resetAdd cs).1.status = (parseChunks cs).status ∧
+    (p.parseBy F .resetAdd cs).1.exprs = (parseChunks cs).exprs ∧
+    (p.parseBy F .resetAdd cs).1.trace = (parseChunks cs).trace := by
+  cases cs with
+  | nil => exact stepwise_of_fuel_cons [] [] F hF hfe p
+  | cons c rest => exact stepwise_of_fuel_cons c rest F hF hfe p
+
 end ZygoVerif.Parser
